@@ -53,7 +53,13 @@ def race_run(chk, binp, work, prop, tier, seed, rev, replay_dir, budget_s):
         for m in re.finditer(r"WARNING: DATA RACE.*?={10,}", log, re.S):
             races.append({"cpus": nc, "report": m.group(0)[:6000]})
         if not os.path.exists(out):
-            bad.append((nc, rc, log[-3000:]))
+            m = re.search(r"^(panic: .*|fatal error: .*)$", log, re.M)
+            if m and "repo-pristine" in log:
+                # real goroutines: a panic in a worker of the code under test kills the process. That is a finding
+                # about the code (the simulation captures the same panic per task), not harness trouble.
+                races.append({"cpus": nc, "crash": m.group(1), "report": "CRASH " + m.group(1) + "\n" + log[log.find(m.group(1)):][:5000]})
+            else:
+                bad.append((nc, rc, log[-3000:]))
         else:
             outs.append(json.load(open(out)))
     return outs, races, bad
@@ -63,6 +69,15 @@ def race_found(chk, prop, seed, races, replay_dir):
     """turns race reports into one Found record per distinct racing location pair"""
     found = {}
     for r in races:
+        if "crash" in r:
+            key = "crash-under-real-scheduler"
+            if key not in found:
+                path = os.path.join(replay_dir, "%s-%d-racemon-crash.json" % (prop, seed))
+                json.dump({"property": prop, "clause": key, "seed": seed, "cpus": r["cpus"], "note": "the race-monitor process (pristine packages, real goroutines) died with a panic", "report": r["report"]}, open(path, "w"), indent=1)
+                found[key] = {"prop": prop, "clause": key, "detail": "process running the pristine packages with real goroutines (%d CPUs) died: %s" % (r["cpus"], r["crash"]), "workflow": "race-monitor", "replay": path, "case_idx": -1, "count": 1, "minimised": False}
+            else:
+                found[key]["count"] += 1
+            continue
         locs = re.findall(r"\n\s+(\S+\.go:\d+)", r["report"])
         repo_locs = [l for l in locs if "/repo-pristine/" in l and "/simrt/" not in l]
         key = "race:" + ",".join(sorted(set(os.path.basename(l) for l in repo_locs[:2]))) if repo_locs else "race:harness-only"
@@ -109,13 +124,16 @@ def main(chk, a, tier, seed):
         if not a.replay:
             th = threading.Thread(target=race_thread)
             th.start()
-        outs, bad = chk.launch(binp, jobs, work, 6 * 3600 if tier == "thorough" else 1500)
+        refdir = os.path.join(work, "refs")
+        os.makedirs(refdir)
+        outs, bad = chk.launch(binp, jobs, work, 6 * 3600 if tier == "thorough" else 1500, extra_env={"VERIF_REF_DIR": refdir})
+        nrefs = len([f for f in os.listdir(refdir) if f.endswith(".json")])
         chk.sanity_verdict(san, sc)
         if th is not None:
             th.join()
         if bad:
             chk.die("engine process trouble: %s" % "\n".join("proc %d rc=%s\n%s" % b for b in bad))
-        extra_cov = {}
+        extra_cov = {"reference_results_from_fresh_processes": nrefs}
         if th is not None:
             if "res" not in race:
                 chk.die("race monitor could not be built or run")
